@@ -37,11 +37,15 @@ Inductive case :=
 | CList (m : lmeth) (sm : slmeth) (recv args : list val) (r : outcome (val * list val))
 | CBuiltin (f : bfun) (sf : sbfun) (args : list val) (r : outcome val)
 | CStar (x y : val) (r : outcome val)
-| CPlus (x y : val) (r : outcome val).
+| CPlus (x y : val) (r : outcome val)
+| CSorted (reverse : bool) (keys : list Z) (out : list nat)
+| CMinMax (is_max : bool) (keys : list Z) (r : outcome nat).
 
 Definition zl_eqb (a b : list Z) : bool :=
   (fix go a b := match a, b with [], [] => true | x :: a', y :: b' => (x =? y) && go a' b' | _, _ => false end) a b.
 Definition vl_eqb (a b : list val) : bool := val_eqb (VList a) (VList b).
+Definition nl_eqb (a b : list nat) : bool :=
+  (fix go a b := match a, b with [], [] => true | x :: a', y :: b' => Nat.eqb x y && go a' b' | _, _ => false end) a b.
 Definition pair_eqb (a b : val * list val) : bool := val_eqb (fst a) (fst b) && vl_eqb (snd a) (snd b).
 
 Definition range_slice_elems (a b c : Z) (lo hi st : arg) : outcome (list Z) :=
@@ -69,6 +73,8 @@ Definition model_ok (c : case) : bool :=
   | CBuiltin f _ args r => outcome_eqb val_eqb (builtin f args) r
   | CStar x y r => outcome_eqb val_eqb (binary_star x y) r
   | CPlus x y r => outcome_eqb val_eqb (binary_plus x y) r
+  | CSorted rev keys out => nl_eqb (sorted_impl rev keys) out
+  | CMinMax mx keys r => outcome_eqb Nat.eqb (minmax_impl mx keys) r
   end.
 
 (* oracle: the implementation did what the specification says (independent of the model) *)
@@ -84,6 +90,11 @@ Definition spec_ok (c : case) : bool :=
   | CBuiltin _ sf args r => outcome_eqb val_eqb (of_spec (spec_builtin sf args)) r
   | CStar x y r => outcome_eqb val_eqb (of_spec (spec_star x y)) r
   | CPlus x y r => outcome_eqb val_eqb (of_spec (spec_plus x y)) r
+  | CSorted rev keys out => sorted_ok rev keys out
+  | CMinMax mx keys r => match r with
+                         | Ok i => minmax_spec_ok mx keys (Some i)
+                         | Err => minmax_spec_ok mx keys None
+                         | _ => false end
   end.
 """
 
@@ -248,6 +259,8 @@ def coq_case(c):
             return None
         n = BUILTINS[c["name"]]
         return "(CBuiltin B%s SB%s %s %s)" % (n, n, clist(cargs), r)
+    if op == "sort":
+        return coq_sort_case(c)
     if op == "bin":
         a, b = coq_val(x), coq_val(args[0])
         r = outcome(obs, coq_val)
@@ -255,6 +268,81 @@ def coq_case(c):
             return None
         return "(%s %s %s %s)" % ("CStar" if c["name"] == "*" else "CPlus", a, b, r)
     return None
+
+
+def key_int(name, v):
+    """The harness's key functions on a V, when the key is an int (else None)."""
+    t = v["t"]
+    if name in ("", "ident"):
+        return int(v["i"]) if t == "int" else None
+    if name == "zero":
+        return 0
+    if name == "len":
+        if t in ("str", "bytes"):
+            return len(vbytes(v))
+        return len(v.get("l", [])) if t in ("list", "tuple") else None
+    if name == "mod3":
+        return int(v["i"]) % 3 if t == "int" else None
+    if name == "neg":
+        return -int(v["i"]) if t == "int" else None
+    if name == "first":
+        l = v.get("l", [])
+        return int(l[0]["i"]) if t in ("list", "tuple") and l and l[0]["t"] == "int" else None
+    if name == "int":
+        if t == "int":
+            return int(v["i"])
+        if t == "bool":
+            return 1 if v.get("b") else 0
+        if t == "float" and v.get("f"):
+            return int(float(v["f"]))
+    return None
+
+
+def sort_elems(c):
+    args = c.get("args") or []
+    if len(args) == 1 and args[0]["t"] in ("list", "tuple"):
+        return args[0].get("l", [])
+    if c["name"] != "sorted" and len(args) >= 2:
+        return args
+    return None
+
+
+def coq_sort_case(c):
+    """sorted / min / max with integer keys -> CSorted / CMinMax over positions."""
+    elems = sort_elems(c)
+    obs = c["obs"]
+    if elems is None or obs["t"] == "panic":
+        return None
+    keys = [key_int(c.get("key", ""), e) for e in elems]
+    if any(k is None for k in keys):
+        return None
+    canon = [json.dumps(e, sort_keys=True) for e in elems]
+
+    def positions(out):
+        used, res = set(), []
+        for o in out:
+            k = json.dumps(o, sort_keys=True)
+            i = next((j for j, e in enumerate(canon) if e == k and j not in used), None)
+            if i is None:
+                return None
+            used.add(i)
+            res.append(i)
+        return res
+    if c["name"] == "sorted":
+        if obs["t"] != "list":
+            return None  # failures of sorted come from unordered keys: not in the integer fragment
+        pos = positions(obs.get("l", []))
+        if pos is None:
+            return "(CSorted %s %s [%s])" % (cbool(c.get("rev") == "true"), zlist(keys), "; ".join("%d%%nat" % (len(keys) + 7) for _ in obs.get("l", [])))
+        return "(CSorted %s %s [%s])" % (cbool(c.get("rev") == "true"), zlist(keys), "; ".join("%d%%nat" % i for i in pos))
+    if c.get("rev"):
+        return None
+    if obs["t"] == "err":
+        r = "Err"
+    else:
+        pos = positions([obs])
+        r = "(Ok %d%%nat)" % (pos[0] if pos else len(keys) + 7)
+    return "(CMinMax %s %s %s)" % (cbool(c["name"] == "max"), zlist(keys), r)
 
 
 # ------------------------------------------------------------ classification
@@ -292,6 +380,15 @@ def describe(c):
         return "%s.%s(%s)" % (recv, c["name"], ", ".join(args))
     if op == "builtin":
         return "%s(%s)" % (c["name"], ", ".join(args))
+    if op == "sort":
+        KEYSRC = {"len": "len", "int": "int", "mod3": "lambda x: x % 3", "zero": "lambda x: 0", "first": "lambda x: x[0]",
+                  "lower": "lambda x: x.lower()", "neg": "lambda x: -x", "ident": "lambda x: x"}
+        kw = []
+        if c.get("key"):
+            kw.append("key=" + KEYSRC.get(c["key"], c["key"]))
+        if c.get("rev"):
+            kw.append("reverse=" + ("True" if c["rev"] == "true" else "False"))
+        return "%s(%s)" % (c["name"], ", ".join(args + kw))
     return "%s %s %s" % (recv, c["name"], args[0])
 
 
@@ -321,7 +418,7 @@ def show(v):
         el = [show(e) for e in v.get("l", [])]
         return "(" + ", ".join(el) + ("," if len(el) == 1 else "") + ")"
     if t == "float":
-        return "1.5"
+        return repr(float(v["f"])) if v.get("f") else "1.5"
     if t == "range":
         return "range(%d, %d, %d)" % tuple(v["r"])
     if t in ("err", "panic"):
@@ -340,6 +437,11 @@ def finding_key(c, why):
         classes = ["int-huge" if a["t"] == "int" and abs(int(a["i"])) >= (1 << 20) else k for a, k in zip(args, classes)]
         return "panic:%s%s(%s)" % (name or op, ":" + kind if op != "call" else "", ",".join(classes))
     big = any(k.startswith("int-outside") for k in classes) or (c.get("x") or {}).get("t") == "int" and argclass(c["x"]).startswith("int-outside")
+    if op == "sort":
+        elems = sort_elems(c) or []
+        ks = [json.dumps(key_int(c.get("key", ""), e)) if key_int(c.get("key", ""), e) is not None else json.dumps(e, sort_keys=True) for e in elems]
+        ties = len(set(ks)) < len(ks)
+        return "%s:%s%s%s" % (name, "key=" + c["key"] if c.get("key") else "no-key", ":reverse" if c.get("rev") == "true" else "", ":ties" if ties else "")
     if op == "slice" and big:
         return "slice:operand-outside-int32"
     if op == "call" and big and name in ("find", "rfind", "index", "rindex", "count", "startswith", "endswith"):
@@ -524,7 +626,7 @@ def run(ctx):
     py_path = os.path.join(ctx.build, "tmp", "c13_py_%s.jsonl" % ctx.tier)
     with open(py_path, "w") as f:
         for c in allpy:
-            f.write(json.dumps({k: c[k] for k in ("op", "x", "name", "args", "obs", "after") if k in c}) + "\n")
+            f.write(json.dumps({k: c[k] for k in ("op", "x", "name", "args", "obs", "after", "key", "rev") if k in c}) + "\n")
     pp = subprocess.run([sys.executable, os.path.join(os.path.dirname(__file__), "c13_py.py"), py_path],
                         capture_output=True, text=True, timeout=840)
     if pp.returncode != 0 or '"done"' not in pp.stdout:
